@@ -19,6 +19,9 @@ type Task struct {
 	ID      int  `json:"id"`
 	SleepMs int  `json:"sleep_ms,omitempty"`
 	Dep     bool `json:"dep,omitempty"` // mode "dep": parks until all Dep tasks of its round have started
+	// Child: while it runs, the task submits this follow-up task to the same pool
+	// (typically while the waiter is already inside Wait).
+	Child *Task `json:"child,omitempty"`
 }
 
 type Round struct {
@@ -129,6 +132,33 @@ func gen(prop, tier string, r *rand.Rand, idx int) any {
 		sc.Rounds = append(sc.Rounds, rd)
 	}
 	sc.MainSubmits = r.IntN(2) == 0
+	if prop == "C12" && r.IntN(6) == 0 {
+		// follow-up submission from inside running tasks: at most max(size,1) tasks
+		// per round (they all start at once, the queue is empty), each may submit
+		// one child to the same pool - which cannot fill the queue
+		sc.Mode = "free"
+		sc.Rounds = nil
+		for i := 1 + r.IntN(2); i > 0; i-- {
+			var ts []Task
+			for k := 1 + r.IntN(eff); k > 0; k-- {
+				tk := Task{ID: id}
+				id++
+				if r.IntN(5) < 3 {
+					tk.Child = &Task{ID: id}
+					id++
+				}
+				if r.IntN(3) == 0 {
+					tk.SleepMs = 1 + r.IntN(10)
+				}
+				ts = append(ts, tk)
+			}
+			rd := Round{Subs: [][]Task{ts}}
+			if r.IntN(3) == 0 {
+				rd.Waiters = 1
+			}
+			sc.Rounds = append(sc.Rounds, rd)
+		}
+	}
 	if sc.Mode == "dep" {
 		// up to max(size,1) mutually dependent tasks per round, anywhere in the round
 		for ri := range sc.Rounds {
@@ -202,6 +232,11 @@ func shrinkCands(x any) []any {
 				out = append(out, c)
 			}
 			for k, tk := range rd.Subs[s] {
+				if tk.Child != nil {
+					c := clone(sc)
+					c.Rounds[i].Subs[s][k].Child = nil
+					out = append(out, c)
+				}
 				if tk.SleepMs > 0 {
 					c := clone(sc)
 					c.Rounds[i].Subs[s][k].SleepMs = 0
@@ -265,6 +300,10 @@ func run(t *testing.T, prop string, x any, cfg simrt.Config) *eng.Outcome {
 			for _, tk := range s {
 				roundOf[tk.ID] = ri
 				n++
+				if tk.Child != nil {
+					roundOf[tk.Child.ID] = ri
+					total++
+				}
 			}
 		}
 		for _, s := range rd.Late {
@@ -277,7 +316,10 @@ func run(t *testing.T, prop string, x any, cfg simrt.Config) *eng.Outcome {
 		total += n
 		need[ri] = min(eff, n)
 	}
-	body := func(tk Task) {
+	var pool *flyt.WorkerPool
+	o_nested := false
+	var body func(tk Task)
+	body = func(tk Task) {
 		ri := roundOf[tk.ID]
 		simrt.EmitThen(simrt.Event{Kind: "task_start", I: tk.ID, N: ri}, func() {
 			started[ri]++
@@ -301,10 +343,16 @@ func run(t *testing.T, prop string, x any, cfg simrt.Config) *eng.Outcome {
 				time.Sleep(time.Duration(tk.SleepMs) * time.Millisecond)
 			}
 		}
+		if ch := tk.Child; ch != nil {
+			simrt.Emit(simrt.Event{Kind: "submit_start", I: ch.ID, N: 200})
+			pool.Submit(func() { body(*ch) })
+			simrt.Emit(simrt.Event{Kind: "submit_end", I: ch.ID, N: 200})
+			o_nested = true
+		}
 		simrt.Emit(simrt.Event{Kind: "task_end", I: tk.ID, N: ri})
 	}
 	res := simrt.Run(t, cfg, func() {
-		pool := flyt.NewWorkerPool(sc.Size)
+		pool = flyt.NewWorkerPool(sc.Size)
 		submitAll := func(si int, ts []Task) {
 			for _, tk := range ts {
 				simrt.Emit(simrt.Event{Kind: "submit_start", I: tk.ID, N: si})
@@ -360,6 +408,9 @@ func run(t *testing.T, prop string, x any, cfg simrt.Config) *eng.Outcome {
 		simrt.Emit(simrt.Event{Kind: "closed"})
 	})
 	o := &eng.Outcome{Res: res, Faults: map[string]int{}, Probes: map[string]int{}}
+	if o_nested {
+		o.Faults["task_submits_follow_up"]++
+	}
 	o.V = oracle(prop, sc, eff, total, roundOf, late, res, o)
 	return o
 }
